@@ -131,8 +131,7 @@ class CoopRLock:
         self.depth -= 1
         ev = self.evented.pop() if self.evented else False
         if self.depth == 0:
-            if ev:
-                self.env.sched.gate("tunlock", handle=self.handle)
+            d = self.env.sched.gate("tunlock", handle=self.handle) if ev else None
             self.owner = None
             if ev:
                 self.env.sched.emit({"k": "TUnlock"})
@@ -227,7 +226,7 @@ def make_fake_datetime(env: "Env") -> Any:
                     why = "upd0"
                     break
             if why in ("ts", "upd", "upd0") and env.sched.me() is not None:
-                env.sched.gate("now", why=why)          # a stored clock read is a scheduling point
+                _async_here(env, env.sched.gate("now", why=why), "now")      # a stored clock read is a scheduling point
             ms = env.clock.read_ms()
             if why in ("ts", "upd", "upd0") and env.sched.me() is not None:
                 env.sched.emit({"k": "Now", "why": why, "val": env.clock.rel(ms)})
@@ -390,6 +389,13 @@ class Fault:
         return f"Fault({self.when},{self.kind})"
 
 
+def _async_here(env: Env, directive: Any, where: str) -> None:
+    """Deliver an asynchronous BaseException at a non-storage scheduling point."""
+    if isinstance(directive, Fault) and directive.when == "async":
+        env.sched.emit({"k": "Fault", "op": where, "cls": "boundary", "when": "async", "kind": directive.kind, "f": 0})
+        raise directive.make(where)
+
+
 def _storage_wrapper(env: Env, op: str, orig: Callable[..., Any]) -> Callable[..., Any]:
     def wrapped(self: Any, path: str, *args: Any, **kw: Any) -> Any:
         s = env.sched
@@ -414,7 +420,11 @@ def _storage_wrapper(env: Env, op: str, orig: Callable[..., Any]) -> Callable[..
         what = f"{op}({cls}:{path})"
         if isinstance(directive, Fault) and directive.when in ("before", "async"):
             s.emit({"k": "Fault", "op": op, "cls": cls, "when": directive.when, "kind": directive.kind,
-                    "f": env.ids.fid(path) if cls in ("data", "man", "list", "marker") else 0})
+                    "f": env.marker_fid(path) if cls == "marker" else (env.ids.fid(path) if cls in ("data", "man", "list") else 0)})
+            if rctx is not None and rctx.get("slot") is not None and rctx["slot"] in s.trace:
+                s.trace.remove(rctx["slot"])
+                rctx["slot"] = None
+            rctx and rctx.__setitem__("faulted", True)
             raise directive.make(what)
         res: Any = None
         err: Optional[BaseException] = None
@@ -592,6 +602,9 @@ def install(env: Env) -> None:
     if _env is not None:
         uninstall()
     _env = env
+    import logging
+
+    logging.getLogger("datashard").setLevel(logging.CRITICAL)      # injected faults make the library log a lot
     import datashard.data_operations as dops
     import datashard.file_lock as fl
     import datashard.file_manager as fm
@@ -623,6 +636,8 @@ def install(env: Env) -> None:
             res = orig_cvi(self)
         except BaseException as e:  # noqa: BLE001
             _tls.resolve = None
+            if ctx.get("faulted"):
+                raise                      # an injected fault: its own Fault event is in the trace
             slot = ctx["slot"] or env.sched.reserve({"k": "Resolve", "a": a.name})
             slot.update({"why": why, "name": {"v": -1, "u": 0}, "ok": False, "err": type(e).__name__})
             raise
@@ -710,6 +725,28 @@ def install(env: Env) -> None:
 
     _patch(dops.DataFileManager, "open_parquet_source", ops)
 
+    # Transaction.commit entry and _finish_committed entry (the two boundaries that decide which
+    # exception handlers apply): events CommitStart / Finish
+    import datashard.transaction as txmod
+
+    orig_commit = txmod.Transaction.commit
+    orig_finish = txmod.Transaction._finish_committed
+
+    def tx_commit(self: Any) -> Any:
+        if env.sched.me() is not None and self.is_active():
+            _async_here(env, env.sched.gate("commit_start"), "commit_start")
+            env.sched.emit({"k": "CommitStart"})
+        return orig_commit(self)
+
+    def tx_finish(self: Any) -> None:
+        if env.sched.me() is not None and self._operations:
+            _async_here(env, env.sched.gate("finish"), "finish")
+            env.sched.emit({"k": "Finish"})
+        return orig_finish(self)
+
+    _patch(txmod.Transaction, "commit", tx_commit)
+    _patch(txmod.Transaction, "_finish_committed", tx_finish)
+
     # flock
     orig_try = fl.FileLock._try_acquire_once
     orig_rel = fl.FileLock.release
@@ -749,7 +786,7 @@ def install(env: Env) -> None:
 
     def is_held(self: Any) -> bool:
         if env.sched.me() is not None:
-            env.sched.gate("fence")
+            _async_here(env, env.sched.gate("fence"), "fence")
         r = orig_isheld(self)
         if env.sched.me() is not None:
             env.sched.emit({"k": "Fence", "ok": bool(r)})
